@@ -1,13 +1,21 @@
-/- Line-protocol driver for C12: runs the *model* `getData` on the harness's inputs. -/
+/- Line-protocol driver for C12: runs the *models* (`getData`, the JSON decoding reference, the
+   exception objects, the generated method's tail) on the harness's inputs.  Driver glue only. -/
 import AriadneModel.Driver.Wire
 import AriadneModel.Model.GetData
+import AriadneModel.Model.RawResponse
+import AriadneModel.Model.MethodTail
+import AriadneModel.Spec.Pyd
 
 open Lean (Json)
-open Ariadne Ariadne.Wire Ariadne.GetData
+open Ariadne Ariadne.Wire Ariadne.GetData Ariadne.RawResponse Ariadne.MethodTail
 
 def encErr (g : GqlErr) : Json :=
   Json.mkObj [("message", enc g.message), ("locations", enc g.locations), ("path", enc g.path),
     ("extensions", enc g.extensions), ("original", enc g.original)]
+
+def encStr : Except String String → Json
+  | .ok s => Json.mkObj [("ok", s)]
+  | .error x => Json.mkObj [("raises", x)]
 
 def encOutcome : Outcome → Json
   | .http s => Json.mkObj [("o", "http"), ("status", s)]
@@ -15,6 +23,82 @@ def encOutcome : Outcome → Json
   | .multi gs d => Json.mkObj [("o", "multi"), ("errors", Json.arr (gs.map encErr).toArray), ("data", enc d)]
   | .data d => Json.mkObj [("o", "data"), ("data", enc d)]
   | .internal x => Json.mkObj [("o", "internal"), ("exc", x)]
+
+/-- outcome + what the exception object says about itself (`str()`, per-error `str()`) -/
+def encOutcomeFull (o : Outcome) : Json :=
+  let base := encOutcome o
+  match excOf () o with
+  | none => base
+  | some e =>
+    let extra : List (String × Json) :=
+      match e with
+      | .multi gs _ => [("str", encStr e.str), ("strs", Json.arr (gs.map fun g => encStr g.str).toArray)]
+      | _ => [("str", encStr e.str)]
+    base.mergeObj (Json.mkObj extra)
+
+def hexDigit (c : Char) : Except String Nat :=
+  if '0' ≤ c ∧ c ≤ '9' then pure (c.toNat - 48)
+  else if 'a' ≤ c ∧ c ≤ 'f' then pure (c.toNat - 87)
+  else throw "hex digit expected"
+
+def hexBytes (acc : List Nat) : List Char → Except String (List Nat)
+  | [] => pure acc.reverse
+  | [_] => throw "odd hex length"
+  | a :: b :: rest => do
+    let x ← hexDigit a
+    let y ← hexDigit b
+    hexBytes ((x * 16 + y) :: acc) rest
+
+/-- body bytes: a hex string, or `[[hex, n], …]` = concatenation of `n` repetitions of each unit -/
+def bodyBytes (j : Json) : Except String (List Nat) :=
+  match j with
+  | .str s => hexBytes [] s.toList
+  | .arr parts => do
+    let mut out : List Nat := []
+    for p in parts.toList.reverse do
+      let pr ← p.getArr?
+      if h : pr.size = 2 then
+        let unit ← hexBytes [] (← pr[0].getStr?).toList
+        let n ← pr[1].getNat?
+        out := (List.replicate n unit).flatten ++ out
+      else throw "body part: pair expected"
+    pure out
+  | _ => throw "body: hex string or parts expected"
+
+def cfgOf (j : Json) : Except String PyJson.Cfg := do
+  pure { depthLimit := (← fieldNat j "depthLimit"), intMaxDigits := (← fieldNat j "intMaxDigits") }
+
+/-- the small real result class the harness generates (`title: str`, `item: Optional["RItem"]`,
+    `RItem.name: str`, `RItem.tags: Optional[List[str]]`); validated by Spec/Pyd.lean -/
+def demoEnv : Pyd.Env :=
+  { classes := [
+      ⟨"R", [], [⟨"title", .name "str", none, false, false⟩, ⟨"item", .optional (.cls "RItem"), none, false, false⟩]⟩,
+      ⟨"S", [], [⟨"item", .optional (.cls "RItem"), none, false, false⟩]⟩,      -- the subscription's result class (one root field)
+      ⟨"RItem", [], [⟨"name", .name "str", none, false, false⟩, ⟨"tags", .optional (.list (.name "str")), none, false, false⟩]⟩],
+    enums := [] }
+
+def demoValidate (cls : String) (j : J) : Option Pyd.PV :=
+  match Pyd.validate demoEnv 8 (.cls cls) j with
+  | .ok v => some v
+  | .error _ => none
+
+def encMOut : MOut Pyd.PV → Json
+  | .raised o => Json.mkObj [("m", "raised"), ("outcome", encOutcomeFull o)]
+  | .validationError => Json.mkObj [("m", "validationError")]
+  | .returned v => Json.mkObj [("m", "returned"), ("dump", enc (Pyd.dump v))]
+  | .nameError => Json.mkObj [("m", "nameError")]
+  | .misapplied w => Json.mkObj [("m", "misapplied"), ("what", w)]
+
+def encSubEnd : SubEnd → Json
+  | .completed => Json.mkObj [("e", "completed")]
+  | .raised o => Json.mkObj [("e", "raised"), ("outcome", encOutcomeFull o)]
+  | .validationError => Json.mkObj [("e", "validationError")]
+  | .nameError => Json.mkObj [("e", "nameError")]
+  | .misapplied w => Json.mkObj [("e", "misapplied"), ("what", w)]
+
+def strList (j : Json) (k : String) : Except String (List String) := do
+  let a ← (← j.getObjVal? k).getArr?
+  a.toList.mapM (·.getStr?)
 
 def handle (j : Json) : Except String Json := do
   let op ← fieldStr j "op"
@@ -24,7 +108,51 @@ def handle (j : Json) : Except String Json := do
     let body ← match j.getObjVal? "body" with
       | .ok b => do pure (some (← dec b))
       | .error _ => pure none           -- no "body" member = response.json() raised ValueError
-    pure (encOutcome (getData ⟨status, body⟩))
+    pure (encOutcomeFull (getData ⟨status, body⟩))
+  | "loads" =>
+    let cfg ← cfgOf j
+    let bytes ← bodyBytes (← j.getObjVal? "bytes")
+    let brief := (j.getObjVal? "brief").isOk        -- class only (values nested too deeply to be read back)
+    match PyJson.loads cfg bytes with
+    | .value v => pure (if brief then Json.mkObj [("r", "value")] else Json.mkObj [("r", "value"), ("value", enc v)])
+    | .valueError => pure (Json.mkObj [("r", "valueError")])
+    | .raises x => pure (Json.mkObj [("r", "raises"), ("exc", x)])
+  | "detect" =>
+    let bytes ← bodyBytes (← j.getObjVal? "bytes")
+    pure (Json.str (reprStr (PyJson.detectEncoding bytes)))
+  | "getDataRaw" =>
+    let cfg ← cfgOf j
+    let status ← fieldNat j "status"
+    let bytes ← bodyBytes (← j.getObjVal? "bytes")
+    pure (encOutcomeFull (getDataRaw cfg ⟨status, bytes⟩))
+  | "emit" =>
+    let params ← strList j "params"
+    let b := emit params
+    pure (Json.mkObj [("queryTarget", b.queryTarget), ("varsTarget", b.varsTarget), ("respTarget", b.respTarget),
+      ("getDataArg", b.getDataArg), ("dataTarget", b.dataTarget), ("validateArg", b.validateArg)])
+  | "emitSub" =>
+    let params ← strList j "params"
+    let b := emitSub params
+    pure (Json.mkObj [("queryTarget", b.queryTarget), ("varsTarget", b.varsTarget), ("loopTarget", b.loopTarget),
+      ("yieldArg", b.yieldArg)])
+  | "method" =>
+    let cfg ← cfgOf j
+    let params ← strList j "params"
+    let status ← fieldNat j "status"
+    let bytes ← bodyBytes (← j.getObjVal? "bytes")
+    pure (encMOut (run (emit params) (getDataRaw cfg) (demoValidate "R") (initEnv params) ⟨status, bytes⟩))
+  | "sub" =>
+    let params ← strList j "params"
+    let items ← (← (← j.getObjVal? "items").getArr?).toList.mapM dec
+    let fin : StreamEnd ← match j.getObjVal? "fin" with
+      | .ok (.str "exhausted") => pure .exhausted
+      | .ok f => do
+        -- the stream dies with the multi-error of these error dicts (C13's `error` frame)
+        let errs ← dec f
+        pure (.raised (fromErrorsDicts errs .null))
+      | .error _ => pure .exhausted
+    let (vs, e) := runSub (R := Unit) (emitSub params) (demoValidate "S") (initEnv params) items fin
+    pure (Json.mkObj [("yields", Json.arr (vs.map fun v => enc (Pyd.dump v)).toArray), ("end", encSubEnd e)])
   | _ => throw s!"unknown op {op}"
 
 def main : IO Unit := Ariadne.Wire.loop handle
